@@ -102,7 +102,7 @@ pub fn generate(rng: &mut Rng, prop: Prop) -> Scenario {
     s.push(Item::new("knob").int("batch", batch).int("mtu", mtu as u64));
 
     // messages and flights
-    let nmsg = rng.urange(1, 6);
+    let nmsg = rng.urange(1, 6 * crate::prng::depth());
     let mut msgs: Vec<Item> = Vec::new();
     let seq_base: u16 = match rng.below(4) {
         0 | 1 => 0,
@@ -385,6 +385,18 @@ pub fn generate(rng: &mut Rng, prop: Prop) -> Scenario {
     if batch == 2 {
         for _ in 0..rng.urange(1, 3) {
             s.push(Item::new("flip").int("dg", rng.usize_below(dgrams.len().max(1)) as u64).int("at", rng.below(200)).int("bit", rng.below(8)));
+        }
+    }
+    // trunc-dribble: one datagram additionally delivered cut at EVERY byte 0..=len (enumerates all
+    // truncation points of that datagram for the Incomplete-iff-truncated / exact-Needed contract)
+    if !dgrams.is_empty() && rng.chance(1, 12) {
+        let d = rng.usize_below(dgrams.len());
+        let dl = dgrams[d].iter().map(|r| rec_len(r, &bodies)).sum::<usize>();
+        if dl <= 1600 {
+            let t0 = deliveries.last().map(|x| x.0).unwrap_or(0) + 1000;
+            for i in 0..=dl {
+                deliveries.push((t0 + i as u64, d, Some(i), "trunc-dribble"));
+            }
         }
     }
     let mut reordered = false;
@@ -750,6 +762,7 @@ pub fn execute(scn: &Scenario, ctx: &mut Ctx) {
             "dgram-dup" => ctx.fault("dgram-dup"),
             "dgram-reorder" => ctx.fault("dgram-reorder"),
             "dgram-truncate" => ctx.fault("dgram-truncate"),
+            "trunc-dribble" => ctx.fault("trunc-dribble"),
             _ => {}
         }
         let cut = it.u_opt("trunc").map(|t| (t as usize).min(dg.bytes.len())).unwrap_or(dg.bytes.len());
